@@ -11,6 +11,7 @@ Only property theorems live here (helper lemmas: `Lemmas/Labels*.lean`, `Lemmas/
 `Lemmas/NameTree.lean`).
 -/
 import PdfVerif.Lemmas.Labels
+import PdfVerif.Lemmas.LabelRanges
 import PdfVerif.Lemmas.Outline
 import PdfVerif.Lemmas.NameTree
 
@@ -93,6 +94,162 @@ theorem alpha_partial (n : Nat) (h0 : 0 < n) (h1 : n ≤ 26) :
   rw [hn, Bool.false_or] at h
   rw [eq_of_isOk h]
   simp [Spec.Labels.alpha, h0, Except.toOption]
+
+/-! ## Number trees and page labels (ISO 32000-1 7.9.7, 12.4.2) -/
+
+section PageLabels
+open PdfVerif.Spec.Labels PdfVerif.Lemmas.LabelRanges
+
+/-- `NumberTree._parse` is the in-order flattening for a tree of ANY shape: entries of `Nums`
+at every depth, `Kids` of every fan-out, nothing lost or reordered. -/
+theorem numtree_flatten {α : Type} (t : NumTree α) : t.parse = flatten t := parse_eq_flatten t
+
+/-- On a conforming tree (keys ascending in order) `values` is that flattening itself. -/
+theorem numtree_values {α : Type} (t : NumTree α) (h : ascending ((flatten t).map (·.1)) = true) :
+    t.values = flatten t := by
+  unfold NumTree.values
+  rw [parse_eq_flatten]
+  exact sortKeys_of_ascending _ h
+
+/-- The label generated for page index `i` is built from the range that contains `i`
+(the last one starting at or before `i`): its prefix, its style, and the value
+`St + (i − start)` (`St` defaulting to 1) — for every conforming tree and every page. -/
+theorem C17_label_range (t : NumTree LabelDict) (n i : Nat) (hi : i < n)
+    (hasc : ascending ((flatten t).map (·.1)) = true)
+    (h0 : (flatten t).head?.map (·.1) = some 0)
+    (start : Int) (d : LabelDict) (hr : rangeOf (flatten t) (i : Int) = some (start, d)) :
+    (Labels.labels t n)[i]? = some (labelOf d (d.st.getD 1 + ((i : Int) - start))) := by
+  unfold Labels.labels
+  rw [numtree_values t hasc]
+  cases hf : flatten t with
+  | nil => simp [hf] at h0
+  | cons p tl =>
+    obtain ⟨k, d0⟩ := p
+    rw [hf] at hasc h0 hr
+    simp only [List.head?_cons, Option.map_some, Option.some.injEq] at h0
+    subst h0
+    simp only [List.map_cons, ascending] at hasc
+    have hg := labelsFrom_get tl 0 d0 n i hasc hi
+    rw [rangeOf_cons_le 0 d0 tl i (by omega)] at hr
+    simp only [Int.zero_add] at hg
+    simp only [Option.some.injEq] at hr
+    rw [hr] at hg
+    simpa [withZero, labelsAux, firstValue] using hg
+
+/-- The model's numeral is the ISO numeral: decimal, roman (upper/lower) for `0 < v < 4000`,
+letters for `v ≤ 26` (beyond that the statement is false, see `alpha_cex`). -/
+theorem numeral_partial (style : Option Bytes) (v : Int) (num : Text)
+    (h : numeral style v = some num)
+    (ha : (style = some styleA ∨ style = some stylea) → v ≤ 26) :
+    formatPageLabel v style = .ok num := by
+  have hroman : ∀ r, roman v.toNat = some r → formatIntRoman v = .ok r := by
+    intro r hr
+    unfold roman at hr
+    split at hr
+    · rename_i hc
+      have hv : v = (v.toNat : Int) := by omega
+      rw [hv, roman_correct v.toNat hc.1 hc.2]
+      simpa using hr
+    · simp at hr
+  have halpha : 0 < v → v ≤ 26 → ∀ r, alpha v.toNat = some r → formatIntAlpha v = .ok r := by
+    intro h0 h26 r hr
+    have hv : v = (v.toNat : Int) := by omega
+    have := alpha_partial v.toNat (by omega) (by omega)
+    rw [← hv, hr] at this
+    cases hf : formatIntAlpha v with
+    | ok x => rw [hf] at this; simp [Except.toOption] at this; rw [this]
+    | error e => rw [hf] at this; simp [Except.toOption] at this
+  cases style with
+  | none => simp [numeral] at h; simp [formatPageLabel, h]
+  | some s =>
+    simp only [numeral] at h
+    simp only [formatPageLabel]
+    by_cases hD : s = styleD
+    · rw [if_pos hD] at h ⊢; simpa using h
+    rw [if_neg hD] at h ⊢
+    by_cases hR : s = styleR
+    · rw [if_pos hR] at h ⊢
+      simp only [Option.map_eq_some_iff] at h
+      obtain ⟨r, hr, rfl⟩ := h
+      rw [hroman r hr]; rfl
+    rw [if_neg hR] at h ⊢
+    by_cases hr' : s = styler
+    · rw [if_pos hr'] at h ⊢
+      exact hroman num h
+    rw [if_neg hr'] at h ⊢
+    by_cases hA : s = styleA
+    · rw [if_pos hA] at h ⊢
+      simp only [Option.map_eq_some_iff] at h
+      obtain ⟨r, hr, rfl⟩ := h
+      split at hr
+      · rename_i h0
+        rw [halpha h0 (ha (Or.inl (by rw [hA]))) r hr]; rfl
+      · simp at hr
+    rw [if_neg hA] at h ⊢
+    by_cases ha' : s = stylea
+    · rw [if_pos ha'] at h ⊢
+      split at h
+      · rename_i h0
+        exact halpha h0 (ha (Or.inr (by rw [ha']))) num h
+      · simp at h
+    rw [if_neg ha'] at h
+    simp at h
+
+/-- FULL STATEMENT for page labels: on every conforming tree, the label the code generates for
+page `i` is the one ISO 32000-1 12.4.2 defines (whenever that is defined: known style, roman
+value below 4000, prefix a valid text string).  False on the pinned code because of the letters
+numeral (`C17_label_cex`); `C17_label_partial` proves it with values of the letter styles ≤ 26. -/
+def C17_label_statement : Prop :=
+  ∀ (t : NumTree LabelDict) (n i : Nat) (l : Text), i < n →
+    ascending ((flatten t).map (·.1)) = true → (flatten t).head?.map (·.1) = some 0 →
+    label (flatten t) i = some l → (Labels.labels t n)[i]? = some (.ok l)
+
+theorem C17_label_partial (t : NumTree LabelDict) (n i : Nat) (l : Text) (hi : i < n)
+    (hasc : ascending ((flatten t).map (·.1)) = true)
+    (h0 : (flatten t).head?.map (·.1) = some 0)
+    (hl : label (flatten t) i = some l)
+    (hsmall : ∀ start d, rangeOf (flatten t) (i : Int) = some (start, d) →
+      (d.style = some styleA ∨ d.style = some stylea) → d.st.getD 1 + ((i : Int) - start) ≤ 26) :
+    (Labels.labels t n)[i]? = some (.ok l) := by
+  unfold label at hl
+  cases hr : rangeOf (flatten t) (i : Int) with
+  | none => simp [hr] at hl
+  | some p =>
+    obtain ⟨start, d⟩ := p
+    rw [C17_label_range t n i hi hasc h0 start d hr]
+    simp only [hr, Option.pure_def, Option.bind_eq_bind, Option.bind_some, Option.bind_eq_some_iff] at hl
+    obtain ⟨pre, hpre, num, hnum, hl⟩ := hl
+    simp only [Option.some.injEq] at hl
+    subst hl
+    have h1 := numeral_partial d.style _ num hnum (hsmall start d hr)
+    have h2 := decode_text_spec _ pre hpre
+    simp [labelOf, h1, h2, Except.map]
+
+/-- Proved counter-example to the full statement: one range `<< /S /a >>`, page index 27. -/
+theorem C17_label_cex : ¬ C17_label_statement := by
+  intro h
+  have := h (.node [(0, { style := some stylea })] []) 28 27 [98, 98] (by decide) (by decide +kernel)
+    (by decide +kernel) (by decide +kernel)
+  have h2 := congrArg (fun o => o.map Except.toOption) this
+  revert h2
+  decide +kernel
+
+/-- Non-vacuity: a two-level tree with three ranges (roman front matter, decimal body with a
+prefix, letters appendix) satisfies the hypotheses, and the model produces the ISO labels. -/
+example :
+    let t : NumTree LabelDict := .node []
+      [.node [(0, { style := some styler })] [],
+       .node [(3, { style := some styleD, pfx := some [65, 45], st := some 7 }), (5, { style := some styleA })] []]
+    ascending ((flatten t).map (·.1)) = true
+    ∧ (flatten t).head?.map (·.1) = some 0
+    ∧ (List.range 7).mapM (label (flatten t)) =
+        some [[105], [105, 105], [105, 105, 105], [65, 45, 55], [65, 45, 56], [65], [66]]
+    ∧ (Labels.labels t 7).map Except.toOption =
+        [some [105], some [105, 105], some [105, 105, 105], some [65, 45, 55], some [65, 45, 56],
+         some [65], some [66]] := by
+  decide +kernel
+
+end PageLabels
 
 /-! ## Outlines (ISO 32000-1 12.3.3) -/
 
